@@ -1,5 +1,6 @@
 "C12 — formatting options are cosmetic and indentation equals nesting depth"
 import re
+import os
 from hypothesis import strategies as st
 from vlib import core, abbr_model as M, abbr_gen as G, outlex as L
 from vlib.core import guard
@@ -249,3 +250,9 @@ def run(ctx):
     ctx.run_parallel('shard_fixed')
     ctx.exhaustive('%d fixed abbreviations × every combination of 7 option toggles (%d) against the default options' % (len(FIXED), 2 * 2 * 3 * 2 * 3 * 2 * 2))
     ctx.run_parallel('shard_random', extra=(ctx.pick(250, 3000),))
+    if ctx.thorough or os.environ.get('VERIF_FUZZ'):
+        ctx.run_atheris('cosmetic', ctx.pick(300, 3000), guided=True)
+
+
+# coverage-guided layer (thorough tier): the Hypothesis strategy under libFuzzer (vlib/fuzz.py, guided mode)
+GUIDED = {'cosmetic': strategy}
